@@ -160,11 +160,11 @@ class Env:
         return dev
 
     def select(self, rlist, wlist, xlist, timeout=None):
-        sock = rlist[0]
-        if sock.closed:
-            raise ValueError("file descriptor cannot be a negative integer (-1)")
-        readable = [sock] if (sock.rx or sock.peer_closed or sock.reset) else []
-        return readable, [sock], []
+        for sock in list(rlist) + list(wlist) + list(xlist):
+            if sock.closed:
+                raise ValueError("file descriptor cannot be a negative integer (-1)")
+        readable = [sock for sock in rlist if (sock.rx or sock.peer_closed or sock.reset)]
+        return readable, list(wlist), []
 
 
 def run_one(kind, connect_answers, actions, prefix):
@@ -498,10 +498,10 @@ def watchdog_threaded(pattern):
         return sock
 
     def select(rlist, wlist, xlist, timeout=None):
-        sock = rlist[0]
-        if sock.closed:
-            raise ValueError("closed")
-        return ([sock] if sock.due() else []), [sock], []
+        for sock in list(rlist) + list(wlist) + list(xlist):
+            if sock.closed:
+                raise ValueError("closed")
+        return [sock for sock in rlist if sock.due()], list(wlist), []
 
     gt.socket = types.SimpleNamespace(create_connection=create_connection, timeout=_socket.timeout)
     gt.select = types.SimpleNamespace(select=select)
